@@ -55,14 +55,15 @@ def io_sites(fn: FuncInfo) -> list[dict[str, Any]]:
             is_method = isinstance(n.func, ast.Attribute) and name != 'io.open'
             mode = _open_mode(n, is_method)
             out.append({'node': n, 'kind': 'open', 'mode': mode, 'write': any(ch in mode for ch in 'wax+'),
-                        'binary': 'b' in mode, 'newline': _kw(n, 'newline'), 'encoding': _kw(n, 'encoding')})
+                        'binary': 'b' in mode, 'newline': _kw(n, 'newline'), 'encoding': _kw(n, 'encoding'), 'errors': _kw(n, 'errors')})
         elif last in ('read_text',):
             out.append({'node': n, 'kind': 'read_text', 'mode': 'r', 'write': False, 'binary': False,
                         'newline': _kw(n, 'newline'), 'encoding': _kw(n, 'encoding') or (n.args[0] if n.args else None),
-                        'no_newline_param': True})
+                        'errors': _kw(n, 'errors') or (n.args[1] if len(n.args) > 1 else None), 'no_newline_param': True})
         elif last in ('write_text',):
             out.append({'node': n, 'kind': 'write_text', 'mode': 'w', 'write': True, 'binary': False,
-                        'newline': _kw(n, 'newline'), 'encoding': _kw(n, 'encoding')})
+                        'newline': _kw(n, 'newline'), 'encoding': _kw(n, 'encoding') or (n.args[1] if len(n.args) > 1 else None),
+                        'errors': _kw(n, 'errors') or (n.args[2] if len(n.args) > 2 else None)})
         elif last in ('read_bytes', 'write_bytes'):
             out.append({'node': n, 'kind': last, 'mode': 'rb' if last == 'read_bytes' else 'wb',
                         'write': last == 'write_bytes', 'binary': True, 'newline': None, 'encoding': None})
@@ -526,6 +527,7 @@ def run(ctx: RuleContext, p: Program) -> None:
     ctx.try_rule(rule_ed_order, p, fns, 'ED-ORDER')
     ctx.try_rule(rule_ed_glob, p, fns, 'ED-GLOB')
     ctx.try_rule(rule_ed_target, p, fns, 'ED-TARGET')
+    ctx.try_rule(rule_ed_codec, p, fns, 'ED-CODEC')
     ctx.try_rule(rule_ed_pair, p, 'ED-PAIR', fns)
     ctx.not_decided += ['glob matching semantics', 'filesystem races', 'what the parser/printer produce (C01)']
     ctx.assumptions += ['Python io newline semantics: newline=None translates on read and to os.linesep on write; '
@@ -1051,3 +1053,29 @@ def rule_ed_pair(ctx: RuleContext, p: Program, rid: str, fns: Optional[list[Func
     ctx.check(not bad, rid, 'editor:Editor.edit_file_recursive: paired maps', '; '.join(bad) or f'{texts} / {mapping}',
               '; '.join(bad) + ': a file that was read but has no model is deleted at exit (or a model without original text is always rewritten)',
               fn.where, note=f'{texts}[k] and {mapping}[k] stored on the same paths')
+
+
+# ====================================================================== ED-CODEC (added after seeded round 6)
+def rule_ed_codec(ctx: RuleContext, p: Program, fns: list[FuncInfo], rid: str) -> None:
+    ctx.rule(rid, 'in each edit session the text-mode reads and the text-mode writes of a ledger use the same codec: the same `encoding` and the '
+                  'same `errors` handler (or neither).  Text decoded with a lenient handler (surrogateescape, replace, ignore) contains characters '
+                  'the strict handler of the write cannot encode: open(.., \'w\') has already truncated the file when the write raises, so an '
+                  'edit of one token destroys the rest of the file')
+    n = 0
+    for fn in fns:
+        sites = [s for s in io_sites(fn) if not s['binary']]
+        reads = [s for s in sites if not s['write']]
+        writes = [s for s in sites if s['write']]
+        if not reads or not writes:
+            continue
+        for w in writes:
+            for r in reads:
+                n += 1
+                diffs = [k for k in ('encoding', 'errors') if (norm(r.get(k)) if r.get(k) is not None else None) != (norm(w.get(k)) if w.get(k) is not None else None)]
+                ctx.check(not diffs, rid, f'editor:{fn.qualname}', f'{norm(r["node"])[:50]} / {norm(w["node"])[:50]}',
+                          f'`{norm(r["node"])[:70]}` reads with {", ".join(f"{k}={norm(r[k]) if r.get(k) is not None else None}" for k in diffs)} but '
+                          f'`{norm(w["node"])[:70]}` writes with {", ".join(f"{k}={norm(w[k]) if w.get(k) is not None else None}" for k in diffs)}: text that the '
+                          f'read accepts cannot be written back, and the file is already truncated when the write fails',
+                          f'{fn.module.relpath}:{w["node"].lineno}', note='same encoding / errors on both sides')
+    if n < 2:
+        raise AnalysisError(f'ED-CODEC: only {n} read/write pairs found (2 confirmed by hand)')
